@@ -24,8 +24,8 @@ From IastRw Require Import Sem P_Sem.
 (** For every world -- every way of answering [+], property reads and calls, and every way the user
     variables may change after each interaction -- every set of instrumented method names, and every
     source expression built from string literals, variables, [+], calls, method calls with no or one
-    argument, compound assignments [x += e] and [o.k += e], template literals with one or two
-    substitutions, and parentheses:
+    argument -- plain and optional ([o?.m()], [o?.m(a)]: a chain of one optional link, rewritten into a null guard) --,
+    compound assignments [x += e] and [o.k += e], template literals with one or two substitutions, and parentheses:
     the rewritten expression yields the same outcome (value or exception) and the same history of
     interactions as the source, from any counter value and any temporary store, and it writes only
     temporaries in the range it allocated.  ([rw] is the function the check ties to the code: SemTie.v.)
@@ -77,7 +77,14 @@ Example C01_core_example :
   fst (rw all all (Tpl2 "a" (Var "x") "b" (CallE (Var "f") (Var "y")) "c") 0) =
     Hoist2 0 (Var "x") 1 (CallE (Var "f") (Var "y")) (Hook (Tpl2 "a" (Tmp 0) "b" (Tmp 1) "c") [Tmp 0; Tmp 1]) /\
   fst (rw all all (Tpl2 "" (Lit (VStr "l")) "" (Add (Var "x") (Var "y")) "") 0) =
-    Tpl2 "" (Lit (VStr "l")) "" (Add (Var "x") (Var "y")) "".
+    Tpl2 "" (Lit (VStr "l")) "" (Add (Var "x") (Var "y")) "" /\
+  (* g(a)?.trim() : the guard temporary first, then the call on it (captured once more, like any identifier receiver) *)
+  fst (rw all all (OptMCall0 (CallE (Var "g") (Var "a")) "trim") 0) =
+    Guard 0 (CallE (Var "g") (Var "a"))
+      (Hoist2 1 (Tmp 0) 2 (Get (Tmp 1) "trim") (Hook (CallT0 (Tmp 2) (Tmp 1)) [Tmp 2; Tmp 1])) /\
+  (* a chain on a literal receiver is left alone, its argument is still rewritten *)
+  fst (rw all all (OptMCall1 (Lit (VStr "l")) "concat" (Add (Var "x") (Var "y"))) 0) =
+    OptMCall1 (Lit (VStr "l")) "concat" (Hook (Add (Var "x") (Var "y")) [Var "x"; Var "y"]).
 Proof. repeat split; reflexivity. Qed.
 
 (** ** The optional call of a rewritten chain keeps its receiver (finding 17d, repaired in 50cf4f0).
